@@ -55,6 +55,10 @@ def restrict(outcome, positions):
 
 def build(tier, seed):
     plan = Plan("C30", level="other")
+    try:
+        import pennylane  # noqa: F401  (loaded once here: the forked obligation workers replay counter-models on the real code)
+    except Exception:  # pylint: disable=broad-except
+        pass
     plan.explanation = ("The real bodies of CountsMP.process_counts / _map_counts / _include_all_outcomes and _remove_unobserved_outcomes are "
                         "executed symbolically on dictionaries with concrete outcome strings and symbolic integer counts (and symbolic "
                         "eigenvalues); every resulting dictionary is compared key by key with the sum formula written from the statement.")
